@@ -42,14 +42,14 @@ CLAIMED = {
         note="Float figures compared with 1e-9 relative tolerance; recorded samples are cross-checked against the logged clock readings.",
         ref="3 (C05)"),
     "C08": dict(
-        technique="runtime monitoring: cross-thread phase-order oracle on global sequence numbers under injected skew; panic matrix under a quiescent-deadlock detector; TSan; Miri",
+        technique="runtime monitoring: cross-thread phase-order oracle on global sequence numbers under injected skew; panic matrix under a quiescent-deadlock detector, with a drop-inside-a-peer's-timed-section oracle for rounds that unwind; TSan; Miri",
         text="On every explored multi-thread run no start timestamp precedes another thread's last gen/count/tally-clear and no drop precedes another thread's end "
              "timestamp (one thread delayed >=200us in exactly the exposing phase, or seeded failpoint jitter); per-round multiset match of per-thread alloc figures; "
              "every (thread, phase, round) panic scenario on T in {2,3} ends with a panic on the caller, hangs being decided exactly (all threads in untimed futex waits).",
         note="Interleavings are sampled (skew, jitter, Miri seeds), not enumerated. Deadlock verdict trusts /proc task state + futex timeout argument.",
         ref="3 (C08)"),
     "C19": dict(
-        technique="runtime monitoring: replay of the documented doubling/threshold/discard rule on logged round sizes and clock readings",
+        technique="runtime monitoring: replay of the documented doubling/threshold/discard rule on logged round sizes and clock readings; end-to-end slice through the real runner (calls per case and thread count on a scripted clock)",
         text="For every explored tuned run the round sizes are 1,2,4,... while floor(slowest/precision) <= 100, the first round above the threshold is the first recorded "
              "one, the report holds exactly the samples/alloc/counter data of the recorded rounds at the final size, and max_time counts from before tuning.",
         note="Precision is taken as conv(step) of the virtual clock (the regime 1 <= delta <= step that C11's check validates against the real measure_precision).",
@@ -70,7 +70,7 @@ CLAIMED = {
         note="Unbounded liveness restated as bounded progress; a livelock without quiescence would only show as an inconclusive watchdog.",
         ref="4 (C07)"),
     "C09": dict(
-        technique="runtime monitoring: mock inner allocator call log (direct mode) and two-layer sandwich monitor with per-thread depth counter during thread start-up / TLS destructors; Miri",
+        technique="runtime monitoring: mock inner allocator call log (direct mode) and two-layer sandwich monitor with per-thread depth counter during thread start-up / TLS destructors (incl. destructors registered before the thread's first request, on std threads and bare pthreads); a crash of either driver is a verdict; Miri",
         text="Every scripted request (all four methods, sizes 0..2^40, alignments 1..4096) reached the wrapped allocator exactly once with identical arguments and its "
              "scripted result (null and sentinels included) came back unchanged; under the global sandwich LogOuter<AllocProfiler<LogInner<System>>> every outer request "
              "saw exactly one matching inner call, depth never exceeded 1, including calls flagged first-on-thread and inside-TLS-destructor.",
@@ -84,7 +84,7 @@ CLAIMED = {
         note="A failed (null) request counts as an operation; equal-size realloc accepted in either bucket with 0 bytes.",
         ref="5 (C10)"),
     "C11": dict(
-        technique="runtime monitoring of the real conversion functions against an exact big-integer reference + metamorphic relations; real measure_precision under stepped (incl. very coarse) virtual clocks; end-to-end slice: recorded samples of real sample loops on virtual counters of many frequencies vs. the logged windows; Miri",
+        technique="runtime monitoring of the real conversion functions against an exact big-integer reference + metamorphic relations; real measure_precision under stepped (incl. very coarse) virtual clocks; end-to-end slice: recorded samples of real sample loops on virtual counters of many frequencies vs. the logged windows (incl. end readings below start readings) and Duration time limits on f64-hostile values one nanosecond off a round boundary; Miri",
         text="Hundreds of thousands (quick) to tens of millions (thorough) of boundary-dense and random (a, b, f) triples agree with floor((b-a)*10^12/f) (0 for b<a), are "
              "monotone, additive up to 1 ps and translation invariant; Durations up to u64::MAX seconds convert to nanos*1000; the real measure_precision returns the step "
              "of every uniform virtual clock tried; both layers of duration_since (raw counter difference and the tagged Timestamp wrapper) agree; recorded samples of real loops equal floor(ticks*10^12/f) of their logged window for frequencies from 1 Hz to 2^64-1.",
@@ -103,7 +103,7 @@ CLAIMED = {
         note="Regex filters restricted to syntax on which Python re and regex-lite agree; macro-generated paths are covered by the generated-crate check (C12).",
         ref="6 (C13)"),
     "C14": dict(
-        technique="runtime monitoring: empty-invocation-log monitor under all list actions; differential comparison of the terse listing with a twin --test run; --exact round trips",
+        technique="runtime monitoring: empty-invocation-log monitor under all list actions; differential comparison of the terse listing with a twin --test run; --exact round trips; macro-path slice on generated crates judged on the (function, type, const, argument) each body reports",
         text="Under --list, terse listing and Divan::list_benches no benchmark body or Bencher closure ran; the terse lines equal, as a multiset, the cases the twin --test run with "
              "the same filters / ignore flags executed; sampled listed paths fed back as the only --exact filter select exactly that case.",
         note="args evaluation during tree construction is not an invocation; round trips only on unique paths.",
